@@ -117,7 +117,8 @@ func (p *Provider) runFullScan(ctx context.Context) error {
 		if err != nil {
 			if errors.Is(err, decoders.ErrAmmoLimit) || errors.Is(err, decoders.ErrPassLimit) {
 				err = nil
-				if filtered && delivered == 0 {
+				if delivered == 0 {
+					// nothing in the file, or nothing chosen: same result as the preloaded path
 					err = decoders.ErrNoAmmo
 				}
 			}
